@@ -164,14 +164,26 @@ func evalC15(c c15Case, o *Obs) error {
 					arrays = append(arrays, b[:cap(b)])
 				}
 			}
-			e.k.Zero()
-			if e.r.Priv != nil {
-				secret := make([]byte, 32)
+			// where in those arrays the private key stands before the call (places, not values: a tiny scalar next to a
+			// guard byte can look like itself again after its window was cleared)
+			var secret []byte
+			type place struct{ arr, off int }
+			var places []place
+			if e.r.Priv != nil && !e.zeroed {
+				secret = make([]byte, 32)
 				e.r.Priv.FillBytes(secret)
-				for _, arr := range arrays {
-					if bytes.Contains(arr, secret) {
-						return fmt.Errorf("key #%d (%s): after Zero() the array behind the key's fields still holds its private key %x", a, e.origin, secret)
+				for ai, arr := range arrays {
+					for off := 0; off+32 <= len(arr); off++ {
+						if bytes.Equal(arr[off:off+32], secret) {
+							places = append(places, place{ai, off})
+						}
 					}
+				}
+			}
+			e.k.Zero()
+			for _, pl := range places {
+				if bytes.Equal(arrays[pl.arr][pl.off:pl.off+32], secret) {
+					return fmt.Errorf("key #%d (%s): after Zero() the array behind the key's fields still holds its private key %x where it stood before", a, e.origin, secret)
 				}
 			}
 			if adr, err := e.k.Address(nets[0].Params); err == nil && adr.EncodeAddress() == refCashEncode(nets[0].Params.CashAddressPrefix, 0, hash160(e.r.pubBytes())) {
